@@ -633,6 +633,13 @@ pub fn crash_history(seed: u64, depth: usize, n: usize) -> Vec<POp> {
     let mut ops = vec![];
     let cap = 1usize << depth;
     let lim = cap.min(200);
+    // every fourth history starts on a tree that has never held a leaf: metadata only, acknowledged twice
+    if seed % 4 == 3 {
+        ops.push(POp::Meta(b"metadata of an empty tree".to_vec()));
+        ops.push(POp::Flush);
+        ops.push(POp::Meta(rand_bytes(&mut rng, 9)));
+        ops.push(POp::Flush);
+    }
     // first segment: populate, so that later segments can overwrite / remove existing positions
     ops.push(POp::Range(0, (0..lim.min(24)).map(|_| uniq(&mut counter)).collect()));
     ops.push(POp::Meta(b"initial".to_vec()));
@@ -797,7 +804,8 @@ fn crash_points(rep: &mut Rep, seed: u64, n_kills: usize) {
         let (depth, variant, planned_ack) = if pause_ms > 0 {
             let q = quiescent_no + seed as usize;
             quiescent_no += 1;
-            ([5usize, 8, 20][q % 3], [0usize, 2, 4, 0][(q / 5) % 4], Some(2 + q % 5))
+            // (histories with hseed % 4 == 3 begin with two metadata-only acknowledgements on an empty tree)
+            ([5usize, 8, 20][q % 3], [0usize, 2, 4, 0][(q / 5) % 4], Some(if hseed % 4 == 3 { 1 + q % 2 } else { 2 + q % 5 }))
         } else {
             ([5usize, 8, 20][kx % 3], [0usize, 2, 4, 0, 1, 3, 5, 2][kx % 8], None)
         };
@@ -874,8 +882,13 @@ fn crash_points(rep: &mut Rep, seed: u64, n_kills: usize) {
         }
         rep.ev();
         rep.stratum(format!("crash|d{depth}|variant{variant}|delay={delay_ms}ms|acks={}|{}", seen.min(8), if pause_ms > 0 { "quiescent" } else { "in-flight" }));
+        if pause_ms > 0 && hseed % 4 == 3 && seen <= 2 {
+            rep.stratum(format!("crash-quiescent|after-metadata-on-a-tree-without-leaves|ack{seen}|d{depth}"));
+        }
         if pause_ms > 0 && seen >= 2 {
-            rep.stratum(format!("crash-quiescent|after-segment-kind={}|d{depth}", ["mixed", "batch-only-not-growing", "single-leaf-only", "metadata-only", "batch-then-delete"][(seen - 2) % 5]));
+            if hseed % 4 != 3 {
+                rep.stratum(format!("crash-quiescent|after-segment-kind={}|d{depth}", ["mixed", "batch-only-not-growing", "single-leaf-only", "metadata-only", "batch-then-delete"][(seen - 2) % 5]));
+            }
         }
         let t0 = std::time::Instant::now();
         match open(depth, &path, variant) {
